@@ -125,3 +125,55 @@ Theorem C11_registry_ok : forall w, good w ->
   forall b, b < nb w -> Forall (fun a => a <> b) (body_evs b (log w)).
 Proof. exact registry_ok. Qed.
 Print Assumptions C11_registry_ok.
+
+(* ---- re-entrant requests while the flush body of a batch runs (flush scripts with ARead / AReflush /
+   ASetRead; all theorems above quantify over these scripts too, so "body entered at most once" holds for them) *)
+
+Theorem C11_body_worlds_inv : forall w b acts, good w -> b < nb w ->
+  inv None (fst (exec (enter w b) b acts)) /\ b < nb (fst (exec (enter w b) b acts)).
+Proof. exact body_worlds_inv. Qed.
+Print Assumptions C11_body_worlds_inv.
+
+Theorem C11_reentrant_read : forall w b k kd c i,
+  inv None w -> b < nb w -> nth_error (bitems (bat w b)) k = Some i ->
+  let r := sibling_read w b i kd in
+  let w' := fst (exec1 w b (ARead k kd c)) in
+  exec1 w b (ARead k kd c) = (emit w (ERead b i r), if c then None else raised r) /\
+  bat w' = bat w /\ itm w' = itm w /\ nb w' = nb w /\ ni w' = ni w /\ active w' = active w /\
+  r <> RNotComputed /\ r <> RSkip /\
+  (iout (itm w i) = None -> bout (bat w b) = None /\ r = RRaise E_BATCHING) /\
+  (forall o, iout (itm w i) = Some o -> r = rep_of kd (Some o)).
+Proof. exact reentrant_read. Qed.
+Print Assumptions C11_reentrant_read.
+
+Theorem C11_reflush_refused : forall w b c,
+  exec1 w b (AReflush c) = (emit w (EReflush b (RRaise E_BATCHING)), if c then None else Some E_BATCHING).
+Proof. exact reflush_refused. Qed.
+Print Assumptions C11_reflush_refused.
+
+Theorem C11_batch_reread_refused : forall w b kd c,
+  let r := batch_reread w b kd in
+  exec1 w b (AReadBatch kd c) = (emit w (EBRead b r), if c then None else raised r) /\
+  (bout (bat w b) = None -> r = RRaise E_BATCHING) /\
+  (forall o, bout (bat w b) = Some o -> r = rep_of kd (Some o)).
+Proof. exact batch_reread_refused. Qed.
+Print Assumptions C11_batch_reread_refused.
+
+Theorem C11_subscriber_read : forall w b k v j kd i i2,
+  inv None w -> b < nb w -> nth_error (bitems (bat w b)) k = Some i -> iout (itm w i) = None ->
+  nth_error (bitems (bat w b)) j = Some i2 ->
+  let w1 := complete_item w i (Ok v) in
+  let r := sibling_read w1 b i2 kd in
+  exec1 w b (ASetRead k v j kd) = (emit w1 (ERead b i2 r), None) /\
+  (i2 = i -> r = rep_of kd (Some (Ok v))) /\
+  (i2 <> i -> iout (itm w i2) = None ->
+     r = RRaise E_BATCHING /\ iout (itm (emit w1 (ERead b i2 r)) i2) = None) /\
+  bat (emit w1 (ERead b i2 r)) = bat w.
+Proof. exact set_read_spec. Qed.
+Print Assumptions C11_subscriber_read.
+
+Theorem C11_reentrant_requests_refused : forall sc ops,
+  Forall read_ok (log (fst (run sc init ops))) /\
+  forall b, b < nb (fst (run sc init ops)) -> bruns (bat (fst (run sc init ops)) b) <= 1.
+Proof. exact reads_refused_run. Qed.
+Print Assumptions C11_reentrant_requests_refused.
